@@ -100,6 +100,24 @@ CLAIMED = {
         note="Trusted: Coq kernel (+ Reals axioms for the dphidy identity); fingerprints of calcZShift; quadrature accuracy monitored (35% threshold away from X-point cells: "
              "catches wrong integrands/factors, not small errors); ShiftAngle = 2*pi*q for the circular case is not proved.",
         technique="Coq proof on translated formula + hand chain model + grid oracle", design="6/C06"),
+    "C07": dict(
+        text="Coq theorems over R (Coquelicot) about formulas REGENERATED from calc_curvature and the Equilibrium helper chain: the three closures are the cylindrical "
+             "components of curl(B/B^2) of the axisymmetric field for any psi and fpol (is_derive statements under the interpolant contract); grad(x) = grad(psi); the vector "
+             "dotted for the y-component is the grad(y) DUAL to the grid (perpendicular to e_x, grad(y).e_y = 1) with tan(beta) as calcBeta computes it, orthogonal and "
+             "non-orthogonal branch, both signs of Bp. On every spline-interpolated corpus grid curl_bOverB_x/y/z and bxcv* are compared with an independent evaluation "
+             "(own splines, Richardson differences, grad(y) from the grid's displacements); the two curvature_type formulations are compared on lsn / lsn_neg.",
+        note="Trusted: Coq kernel + Reals/Coquelicot axioms; interpolant contract (FITPACK derivative evaluators); translator (validated in C18's run); agreement of the x-y "
+             "formulation is checked by normalised correlation at one resolution (sign/scale), not by a convergence study; dct-interpolated grids skipped by the grid oracle.",
+        technique="Coq proof (Coquelicot auto_derive + field) on translated formulas + independent grid oracle", design="6/C07"),
+    "C18": dict(
+        text="Coq theorems over R (Coquelicot): for a DCT coefficient matrix of ANY size each derivative evaluator (summands REGENERATED from dct_interpolation.py) is the "
+             "partial derivative of the __call__ evaluator and the mixed evaluator is both d/dZ of ddR and d/dR of ddZ; every field helper (Bp_R ... dBdZ, REGENERATED from "
+             "equilibrium.py) is the partial derivative of its primitive under the interpolant contract; div B = 0; f.grad(psi) = 1; TokamakEquilibrium.fpolprime is the "
+             "derivative of fpol for either direction of psi1D. On real TokamakEquilibrium objects (both methods, dR != dZ, both psi1D directions, non-constant fpol): every "
+             "exposed function vs Richardson differences of its primitive, div B, node reproduction, scalar/array/MultiLocationArray arguments; translation validation.",
+        note="Trusted: Coq kernel + Reals/Coquelicot axioms; FITPACK's dx/dy evaluators and scipy's dct are contracts monitored numerically; interpolation error vs the analytic "
+             "function is observed only.",
+        technique="Coq proof (Coquelicot) on translated formulas + finite-difference oracle on the implementation", design="6/C18"),
 }
 
 PENDING = ["C01", "C03", "C04", "C05", "C06", "C07", "C08", "C09", "C10", "C11", "C12", "C13", "C14", "C15", "C16", "C17", "C18", "C19", "C20"]
